@@ -134,7 +134,7 @@ def depth1_programs(nargs, d, numbers=(2, -3)):
                 out.append((op, [('num', n), x], [], 'infix'))      # number on the left (reflected)
                 out.append((op, [x, ('num', n)], [], 'infix'))      # number on the right
             out.append(('div', [x, ('num', n)], [], 'infix'))
-        for n in (0, 1, 2, 3, -1, -2):
+        for n in (0, 1, 2, 3, 5, 6, -1, -2):
             out.append(('pow', [x], [n], 'infix'))
         for gs in ([0], [1], [2], [0, 2], [1, 2], list(range(d + 1))):
             if all(g <= d for g in gs):
